@@ -7,6 +7,8 @@ LEVEL = "model_checking"
 
 
 def check(run):
+    import mc
+    mc.client_mc(run, "C10")
     scripts = F.incoming(run.seed, run.tier)
     nacc, rejected, events, final = B.check_family(run, "C10", scripts, "c10", kind="client")
     run.add(distinct_nontrivial=len({lib.digest([s["steps"], s["config"]]) for s in scripts}),
